@@ -1,4 +1,5 @@
 import LunarVerif.Proofs.C09
+import LunarVerif.Proofs.C09Conc
 /-!
 # C09 — Policy-mode throttling never exceeds the allowed count per aligned window
 
@@ -102,6 +103,103 @@ theorem window_bound (cap : CapFn) (rs : List (Req κ)) (hclean : clean (runL ca
     rw [this]
     simp [passesInWin]
     omega
+
+end
+
+/-! ### Metrics scrapes (`RateLimitState.Counters()`, repaired by fix F09d) -/
+
+section
+variable {κ : Type} [DecidableEq κ]
+
+/-- A metrics scrape only reads: the limiter state after it is the state before it. -/
+theorem scrape_reads_only (cap : CapFn) (st : State κ) (t : Nat) :
+    (stepOp cap st (.scrape t)).1 = st := rfl
+
+/-- Scrapes are invisible: the verdicts of a run of requests interleaved with metrics scrapes (at any
+    instants) are those of the run of the requests alone — reading metrics never changes who passes. -/
+theorem scrape_invisible (cap : CapFn) (ops : List (Op κ)) (st : State κ) :
+    runOps cap st ops = runL cap st (reqsOf ops) := by
+  induction ops generalizing st with
+  | nil => rfl
+  | cons o os ih =>
+    cases o with
+    | req r => simp [runOps, stepOp, reqsOf, runL, ih]
+    | scrape t => simp [runOps, stepOp, reqsOf, ih]
+
+/-- Connection theorem for runs WITH scrapes: the judge predicate (which ignores scrapes: `refSpill` credits
+    only the key's previously active window) is true of every model run of requests and scrapes. -/
+theorem spec_holds_with_scrapes (cap : CapFn) (ops : List (Op κ))
+    (hclean : clean (runOps cap [] ops) = true) :
+    holds cap (runOps cap [] ops) = true := by
+  rw [scrape_invisible] at hclean ⊢
+  exact spec_holds cap _ hclean
+
+/-! ### All interleavings of concurrent requests (critical-section granularity, `Model/C09Conc.lean`;
+    atomicity of the sections = obligation `LunarVerif.C18.atomicity_facts`, not imported) -/
+
+/-- Every schedule is equivalent to a sequential order: the history of ANY interleaving of the threads'
+    critical sections (verdicts in the order of the `TryToIncrement` sections, each stamped with the instant of
+    that section) is exactly the sequential run of those same requests in that order; every thread appears at
+    most once, with its own key and window data. -/
+theorem schedule_equivalent_to_sequential (cap : CapFn) (calls : List (Call κ)) (sched : List (Nat × Nat)) :
+    history (runC cap calls (initC calls) sched)
+      = runL cap [] (inputs (history (runC cap calls (initC calls) sched))) ∧
+    ((runC cap calls (initC calls) sched).done.map (·.1)).Nodup ∧
+    ∀ d ∈ (runC cap calls (initC calls) sched).done,
+      ∃ call, calls[d.1]? = some call ∧ d.2.key = call.key ∧ d.2.wd = call.wd := by
+  have h := runC_inv cap calls sched _ (invC_init cap calls)
+  exact ⟨h.seq, h.nodup, h.fromCall⟩
+
+/-- (i)+(iii) for EVERY schedule and every monotone clock assignment to the steps: each concurrent request
+    passes iff its key's grid window held fewer passes than the cap when its `TryToIncrement` section ran. -/
+theorem bound_all_schedules (cap : CapFn) (calls : List (Call κ)) (sched : List (Nat × Nat))
+    (hpos : ∀ call ∈ calls, 0 < call.wd.W) (hmono : sched.Pairwise (fun a b => a.2 ≤ b.2)) :
+    holds cap (history (runC cap calls (initC calls) sched)) = true := by
+  have h := runC_inv cap calls sched _ (invC_init cap calls)
+  rw [h.seq]
+  apply spec_holds
+  rw [clean, runL_inputs]
+  simp only [admissible, Bool.and_eq_true]
+  constructor
+  · apply history_monotone
+    exact runC_mono cap calls sched _ hmono (by simp [initC]) (by simp [initC])
+  · simp only [posW, List.all_eq_true, decide_eq_true_eq, inputs, history, List.mem_map,
+      List.mem_reverse]
+    rintro r ⟨e, ⟨d, hd, rfl⟩, rfl⟩
+    obtain ⟨call, hcall, _, hwd⟩ := h.fromCall d hd
+    simp only [Event.req, hwd]
+    exact hpos call (List.mem_of_getElem? hcall)
+
+/-- The plain per-window form for every schedule: if all concurrent calls on key `k` carry the same window
+    data (spill-over off), at most `cap allowed ratio` of them pass in ANY grid window. -/
+theorem window_bound_all_schedules (cap : CapFn) (calls : List (Call κ)) (sched : List (Nat × Nat))
+    (hpos : ∀ call ∈ calls, 0 < call.wd.W) (hmono : sched.Pairwise (fun a b => a.2 ≤ b.2))
+    (k : κ) (wd : WindowData) (hoff : wd.spillOn = false)
+    (hconst : ∀ call ∈ calls, call.key = k → call.wd = wd) (idx : Nat) :
+    (passesInWin wd.W idx (keyHist k (history (runC cap calls (initC calls) sched))) : Int)
+      ≤ max 0 (cap wd.allowed wd.ratio) := by
+  have h := runC_inv cap calls sched _ (invC_init cap calls)
+  have hb := bound_all_schedules cap calls sched hpos hmono
+  rw [h.seq] at hb ⊢
+  have hclean : clean (runL cap [] (inputs (history (runC cap calls (initC calls) sched)))) = true := by
+    rw [clean, runL_inputs]
+    simp only [admissible, Bool.and_eq_true]
+    constructor
+    · apply history_monotone
+      exact runC_mono cap calls sched _ hmono (by simp [initC]) (by simp [initC])
+    · simp only [posW, List.all_eq_true, decide_eq_true_eq, inputs, history, List.mem_map,
+        List.mem_reverse]
+      rintro r ⟨e, ⟨d, hd, rfl⟩, rfl⟩
+      obtain ⟨call, hcall, _, hwd⟩ := h.fromCall d hd
+      simp only [Event.req, hwd]
+      exact hpos call (List.mem_of_getElem? hcall)
+  apply window_bound cap _ hclean k wd hoff _ idx
+  simp only [inputs, history, List.mem_map, List.mem_reverse]
+  rintro r ⟨e, ⟨d, hd, rfl⟩, rfl⟩ hk
+  obtain ⟨call, hcall, hkey, hwd⟩ := h.fromCall d hd
+  simp only [Event.req] at hk ⊢
+  rw [hwd]
+  exact hconst call (List.mem_of_getElem? hcall) (by rw [← hkey]; exact hk)
 
 end
 
@@ -212,6 +310,29 @@ example :
       ⟨1, 1001500000002, wd⟩, ⟨1, 1001500000003, wd⟩]
     clean (runL capExact [] rs) = true ∧
     (runL capExact [] rs).map (·.pass) = [true, true, true, true, false] := by
+  decide
+
+/-- the former F09d witness (allowed 2 per 1 s, spill-over on; window 1000 used up; scrapes in the idle windows
+    1001–1003; requests in window 1004): the scrapes read 0 and change nothing — 2 pass, as without scrapes. -/
+example :
+    let wd : WindowData := ⟨1000000000, 2, .one, true, 31⟩
+    let ops : List (Op Unit) := [.req ⟨(), 1000500000000, wd⟩, .req ⟨(), 1000500000001, wd⟩,
+      .scrape 1001500000000, .scrape 1002500000000, .scrape 1003500000000,
+      .req ⟨(), 1004500000000, wd⟩, .req ⟨(), 1004500000001, wd⟩, .req ⟨(), 1004500000002, wd⟩]
+    clean (runOps capExact [] ops) = true ∧
+    (runOps capExact [] ops).map (·.pass) = [true, true, true, true, false] := by
+  decide
+
+/-- `bound_all_schedules` / `schedule_equivalent_to_sequential`: three concurrent calls on one key (cap 2) and one
+    on another key, sections interleaved (thread 2 runs its `TryToIncrement` first, thread 0 last): the third
+    `TryToIncrement` on the shared key is the rejected one. -/
+example :
+    let calls : List (Call Nat) := [⟨7, wd1 1 2, "r", 2⟩, ⟨7, wd1 1 2, "r", 2⟩, ⟨7, wd1 1 2, "r", 2⟩, ⟨8, wd1 1 1, "q", 1⟩]
+    let sched : List (Nat × Nat) := [(0, 1000500000000), (1, 1000500000000), (2, 1000500000001), (0, 1000500000001),
+      (2, 1000500000002), (3, 1000500000002), (2, 1000500000003), (1, 1000500000003), (3, 1000500000004),
+      (1, 1000500000005), (3, 1000500000006), (0, 1000500000007)]
+    ((runC capExact calls (initC calls) sched).done.reverse.map (fun d => (d.1, d.2.pass)))
+      = [(2, true), (1, true), (3, true), (0, false)] := by
   decide
 
 /-- plugin level: two groups with 25 % / 75 % of 4, an unknown group under `block`, configured status 503. -/
